@@ -59,6 +59,8 @@ type Frame struct {
 	atomicOrd map[*ssa.CallCommon]int
 	curInstr  ssa.Instruction
 	private   []privAlloc
+	rangeOrd  map[*ssa.CallCommon]int
+	guardOf   map[ssa.Value]string // value loaded from a guarded field -> address term of its lock
 }
 
 type loopInfo struct {
@@ -681,6 +683,8 @@ func (fr *Frame) havocLoop(li *loopInfo, h Heap) Heap {
 					} else {
 						n, _ := g.rcvName(el)
 						add(n, "", true)
+						rn, _ := g.rcvCountName()
+						add(rn, "", true)
 					}
 				}
 			case *ssa.Send:
@@ -692,6 +696,8 @@ func (fr *Frame) havocLoop(li *loopInfo, h Heap) Heap {
 				if x.Op == token.ARROW {
 					n, _ := g.rcvName(x.X.Type().Underlying().(*types.Chan).Elem())
 					add(n, "", true)
+					rn, _ := g.rcvCountName()
+					add(rn, "", true)
 				}
 			case *ssa.Next:
 				if r, ok := x.Iter.(*ssa.Range); ok {
